@@ -536,3 +536,14 @@ def serialize_commands(cmds):
         else:
             r = r + push_data(c)
     return r
+
+
+def serialize_step(acc, c, j):
+    """one command: an opcode byte, or the canonical push of a data item"""
+    return acc + (bytes([c]) if isinstance(c, int) else push_data(c))
+
+
+def serialize_commands_any(cmds):
+    """serialize_commands for a command list of ANY length (the loop written as a left fold)"""
+    from pyvc.api import fold
+    return fold(serialize_step, b'', cmds, len(cmds), key='script-ser')
